@@ -124,9 +124,57 @@ def check(rep):
     for (ident, ny, end), out in zip(runs, fw.run_driver(lines)):
         if out != f"{ny} {end}":
             rep.fail("correspondence", f"system loop: implementation yielded {ny} and ended with {end}, model: {out}", ident, expected=out, observed=f"{ny} {end}")
-    # refusal of non-generable systems
+    # schedules: two (three) iterations of ONE system object alive at once, advanced in a random interleaving; each iteration, judged on
+    # its own yields, is exactly the iteration obtained alone from a fresh object with the same generator seed
     import gbigsmiles
     import numpy as np
+    interleaved = 0
+    for _ in range(12 if quick else 400):
+        text, smw, kinds, pct, S = sysrun.make_system(rnd, allow_open=False)
+        seeds = [rnd.randrange(1 << 30) for _ in range(rnd.choice([2, 2, 3]))]
+
+        def alone(seed):
+            sysobj = gbigsmiles.System(text, system_molweight=smw)
+            return [(round(float(m.weight), 6), m.smiles) for m in type(sysobj).generator.fget(sysobj, rng=np.random.default_rng(seed))]
+
+        try:
+            with fw.time_limit(240):
+                want = [alone(sd) for sd in seeds]
+                sysobj = gbigsmiles.System(text, system_molweight=smw)
+                if not sysobj.generable:
+                    continue
+                gens = [type(sysobj).generator.fget(sysobj, rng=np.random.default_rng(sd)) for sd in seeds]
+                got = [[] for _ in seeds]
+                alive = list(range(len(seeds)))
+                order = []
+                while alive:
+                    k = rnd.choice(alive)
+                    order.append(k)
+                    try:
+                        m = next(gens[k])
+                        got[k].append((round(float(m.weight), 6), m.smiles))
+                    except StopIteration:
+                        alive.remove(k)
+                    if len(order) > 20000:
+                        raise RuntimeError("harness: too many molecules")
+        except Exception as e:  # noqa
+            if "endless loop" in str(e):
+                continue
+            rep.fail("oracle", f"interleaved iterations of one system raised {type(e).__name__}: {str(e)[:80]}", {"text": text, "system_molweight": smw, "seeds": seeds, "mode": "interleaved"},
+                     expected="molecules", observed=fw.exc_class(e))
+            continue
+        interleaved += 1
+        evaluations += 1
+        Sm = float(sysobj.system_mass)
+        for k, sd in enumerate(seeds):
+            tot = sum(w for w, _ in got[k])
+            before = tot - (got[k][-1][0] if got[k] else 0.0)
+            if got[k] != want[k] or not (before < Sm <= tot + 1e-9):
+                rep.fail("oracle", f"iteration {k} of {len(seeds)} interleaved iterations of one system object yielded {len(got[k])} molecules (accumulated mass {tot:.2f}, system mass {Sm}); "
+                         f"alone, with the same seed, it yields {len(want[k])}", {"text": text, "system_molweight": smw, "seeds": seeds, "order": order[:200], "mode": "interleaved"},
+                         expected=f"{len(want[k])} molecules, mass {sum(w for w, _ in want[k]):.2f}", observed=f"{len(got[k])} molecules, mass {tot:.2f}")
+                break
+    # refusal of non-generable systems
     refusals = 0
     for text in ["CCOF.|50%|CCCCl.|50%|", "CCOF.|20%|CCCCl.|30%|CCCBr", "CCOF.|100|CCCCl", "CCOF.|40%|CCCCl.|60%|", "CCCF"]:
         try:
@@ -144,7 +192,7 @@ def check(rep):
             except Exception:
                 pass
     rep.coverage.update({"evaluations": evaluations + refusals, "distinct_nontrivial": len(distinct), "systems": evaluations, "non_generable_systems_tried": refusals,
-                         "molecules_yielded": sum(n for _, n, _ in runs), "exact_landing_systems": landing, "systems_by_kind": hist, "loop_runs_validated_against_model": len(runs),
+                         "interleaved_schedules": interleaved, "molecules_yielded": sum(n for _, n, _ in runs), "exact_landing_systems": landing, "systems_by_kind": hist, "loop_runs_validated_against_model": len(runs),
                          "rule": "systems of 1-4 components (small molecules, four polymer archetypes, one never-complete polymer), each with its own hetero atom, "
                                  "system masses 400-6000, specifications {percent + one absolute, all absolute, percent + caller mass}; distinct_nontrivial = "
                                  "distinct (system, seed) that yielded >= 2 molecules",
@@ -166,6 +214,29 @@ def replay(case):
         except Exception as e:
             print("refused:", e)
             return 0
+    if c.get("mode") == "interleaved":
+        import gbigsmiles, numpy as np
+        text, smw, seeds = c["text"], c.get("system_molweight"), c["seeds"]
+        alone = []
+        for sd in seeds:
+            so = gbigsmiles.System(text, system_molweight=smw)
+            alone.append(len(list(type(so).generator.fget(so, rng=np.random.default_rng(sd)))))
+        so = gbigsmiles.System(text, system_molweight=smw)
+        gens = [type(so).generator.fget(so, rng=np.random.default_rng(sd)) for sd in seeds]
+        got = [0] * len(seeds)
+        alive = set(range(len(seeds)))
+        order = list(c.get("order", [])) + [k for _ in range(20000) for k in range(len(seeds))]
+        for k in order:
+            if not alive:
+                break
+            if k not in alive:
+                continue
+            try:
+                next(gens[k]); got[k] += 1
+            except StopIteration:
+                alive.discard(k)
+        print("molecules per iteration, alone:", alone, "interleaved on one object:", got)
+        return 0 if alone == got else 1
     r = sysrun.SysRun(c["text"], c.get("system_molweight"), c.get("seed", 0))
     print("yields", len(r.yields), "system mass", r.S, "total", sum(y[0] for y in r.yields), "error", r.error)
     return 1
